@@ -9,10 +9,35 @@ use crate::rng::Rng;
 // C18
 // ---------------------------------------------------------------------------
 
-const BASE_PARTS: [&str; 22] = [
+const BASE_PARTS: [&str; 28] = [
     "foo", "libnbcompat", "nb", "nb3", "p5", "", "\u{e9}", "py312", "x_y", "1.0", "..", "gnb",
     "Foo", "nbnb", "f", "\u{65e5}\u{672c}", "a b", "2nb", "+x", "NB", "mysqlclient", "0",
+    "1.3", "3d", "2.0rc1", "mktool", "7", "g++",
 ];
+
+/// Dictionary of plausible special endings of a package name (binary package
+/// and archive suffixes, backup markers, path and line terminators).  The
+/// split / rebuild / revision rules of the statement are the same for them:
+/// they are part of the text after the last '-'.
+pub const NAME_SUFFIXES: [&str; 20] = [
+    ".tgz", ".tbz", ".txz", ".tzst", ".tar.gz", ".tar.xz", ".tar", ".pkg", ".orig", ".sig", "~",
+    "/", " ", "\n", "\t", ".TGZ", ".tgz.tgz", ".tgz/", ".gz", ".zip",
+];
+
+/// Dictionary of plausible special beginnings (relative / absolute directory
+/// prefixes, byte order mark, '+', blanks).
+pub const NAME_PREFIXES: [&str; 12] = [
+    "./", "\u{feff}", "+", "/", "All/", "../../cat/", " ", "packages/All/", "\t", "../", "=", "@",
+];
+
+/// A name with a dictionary ending and/or beginning attached.
+pub fn decorate(r: &mut Rng, name: &str) -> String {
+    match r.below(6) {
+        0 => format!("{}{name}", r.pick(&NAME_PREFIXES)),
+        1 => format!("{}{name}{}", r.pick(&NAME_PREFIXES), r.pick(&NAME_SUFFIXES)),
+        _ => format!("{name}{}", r.pick(&NAME_SUFFIXES)),
+    }
+}
 
 /// 1..=18 digits, optionally with leading zeros; returns (spelling, value).
 pub fn rev_digits(r: &mut Rng, min: i64, max: i64) -> (String, i64) {
@@ -139,7 +164,162 @@ pub fn name(r: &mut Rng) -> String {
         },
     };
     parts.push(last);
-    parts.join("-")
+    let s = parts.join("-");
+    if r.chance(1, 4) {
+        decorate(r, &s)
+    } else {
+        s
+    }
+}
+
+// --- Summary states around PKGNAME (the accessors must depend on PKGNAME only)
+
+use crate::gen::summary::Op;
+use crate::oracle::summary::{self as osum, Kind, Val, NVARS, VARS};
+
+/// How a `Summary` holding `name` as PKGNAME is brought about.
+pub struct SumCtx {
+    /// Setter / pusher calls in order; contains at least one
+    /// `Set(PKGNAME, ..)`, the last of which sets the name under test.
+    pub ops: Vec<Op>,
+    /// A complete, well-formed entry text whose (last) PKGNAME line carries
+    /// the name; `None` when the name cannot be carried by a text line.
+    pub text: Option<String>,
+    /// PKGPATH (setter history / text) is `cat/<name up to one of its dashes>`.
+    pub coherent_ops: bool,
+    pub coherent_text: bool,
+}
+
+const DECOYS: [&str; 4] = ["decoy-9.9", "other-pkg-0.1nb2", "x-1", "mktool-1.3-2"];
+const FILLER: [&str; 6] = ["x", "", "filler text", "devel", "NetBSD", "20240101"];
+
+fn dash_positions(name: &str) -> Vec<usize> {
+    name.bytes().enumerate().filter(|(_, b)| *b == b'-').map(|(i, _)| i).collect()
+}
+
+/// A string built from pieces of the name: its prefix up to one of its
+/// dashes (the package directory the name suggests), its tail, pattern and
+/// path spellings of those.  Never contains a line break unless the name does.
+fn related(r: &mut Rng, name: &str) -> String {
+    let d = dash_positions(name);
+    let (pre, post) = if d.is_empty() {
+        (name, "")
+    } else {
+        let i = *r.pick(&d);
+        (&name[..i], &name[i + 1..])
+    };
+    match r.below(12) {
+        0 => pre.to_string(),
+        1 => post.to_string(),
+        2 => format!("cat/{pre}"),
+        3 => format!("../../cat/{pre}"),
+        4 => format!("{pre}-[0-9]*"),
+        5 => format!("{name}.tgz"),
+        6 => name.to_string(),
+        7 => format!("{pre}>={post}"),
+        8 => format!("{pre}-[0-9]*:../../cat/{pre}"),
+        9 => format!("cat/{post}"),
+        10 => format!("{pre}-"),
+        _ => r.pick(&FILLER).to_string(),
+    }
+}
+
+/// (value, coherent): a PKGPATH value for a Summary whose PKGNAME is `name`.
+fn pkgpath_for(r: &mut Rng, name: &str) -> (String, bool) {
+    let d = dash_positions(name);
+    if !d.is_empty() && r.chance(3, 5) {
+        let i = *r.pick(&d);
+        let cat = *r.pick(&["cat", "pkgtools", "devel", "wip"]);
+        return (format!("{cat}/{}", &name[..i]), true);
+    }
+    let v = match r.below(8) {
+        0 => "cat/other".to_string(),
+        1 => String::new(),
+        2 => name.to_string(),
+        3 => format!("cat/{name}"),
+        4 => "pkgtools/mktool".to_string(),
+        _ => related(r, name),
+    };
+    (v, false)
+}
+
+fn val_related(r: &mut Rng, var: usize, name: &str) -> Val {
+    match VARS[var].kind {
+        Kind::I => Val::I(r.below(1_000_000) as i64),
+        Kind::S => Val::S(related(r, name)),
+        Kind::A => Val::A((0..r.range(1, 2)).map(|_| related(r, name)).collect()),
+    }
+}
+
+/// A random way of bringing a Summary into a state whose PKGNAME is `name`:
+/// other variables (PKGPATH coherent with the name or not, FILE_NAME,
+/// DEPENDS, ...) are set before and after `set_pkgname`, possibly after a
+/// different PKGNAME was set first; and a complete entry text for
+/// `Summary::from_str`.
+pub fn sum_ctx(r: &mut Rng, name: &str) -> SumCtx {
+    // setter history
+    let mut ops: Vec<Op> = vec![];
+    let mut coherent_ops = false;
+    let all = r.chance(1, 6);
+    for var in 0..NVARS {
+        if var == osum::PKGNAME {
+            continue;
+        }
+        let p = if var == osum::PKGPATH { r.chance(3, 4) } else { r.chance(1, 4) };
+        if !(all || p) {
+            continue;
+        }
+        if var == osum::PKGPATH {
+            let (v, c) = pkgpath_for(r, name);
+            coherent_ops = c;
+            ops.push(Op::Set(var, Val::S(v)));
+        } else {
+            match (VARS[var].kind, r.below(3)) {
+                (Kind::A, 0) => ops.push(Op::Push(var, related(r, name))),
+                _ => ops.push(Op::Set(var, val_related(r, var, name))),
+            }
+        }
+    }
+    r.shuffle(&mut ops);
+    let at = r.below(ops.len() + 1);
+    ops.insert(at, Op::Set(osum::PKGNAME, Val::S(name.to_string())));
+    if r.chance(1, 5) {
+        let before = r.below(at + 1);
+        ops.insert(before, Op::Set(osum::PKGNAME, Val::S(r.pick(&DECOYS).to_string())));
+    }
+
+    // entry text
+    let mut coherent_text = false;
+    let text = if name.contains('\n') || name.contains('\r') {
+        None
+    } else {
+        let mut lines: Vec<String> = vec![];
+        for var in 0..NVARS {
+            if var == osum::PKGNAME || !(VARS[var].required || r.chance(1, 3)) {
+                continue;
+            }
+            if var == osum::PKGPATH {
+                let (v, c) = pkgpath_for(r, name);
+                coherent_text = c;
+                lines.push(format!("PKGPATH={v}"));
+                continue;
+            }
+            for t in val_related(r, var, name).texts() {
+                lines.push(format!("{}={t}", VARS[var].name));
+            }
+        }
+        r.shuffle(&mut lines);
+        let at = r.below(lines.len() + 1);
+        lines.insert(at, format!("PKGNAME={name}"));
+        if r.chance(1, 6) {
+            let before = r.below(at + 1);
+            lines.insert(before, format!("PKGNAME={}", r.pick(&DECOYS)));
+        }
+        let mut t = lines.join("\n");
+        t.push('\n');
+        Some(t)
+    };
+    SumCtx { ops, text, coherent_ops, coherent_text }
 }
 
 pub struct Probe {
@@ -191,6 +371,34 @@ const ODD_SEGS: [&str; 22] = [
     ":", "*", "a:b", " ..", ". ", "\t", "..a", "\0", "a\0b",
 ];
 
+/// Ordinary category / package directory names of the kinds found in pkgsrc:
+/// beginning with a digit, containing '+', '.', '_', '-', upper case, a
+/// single character, and words that mean something elsewhere in the library.
+pub const REAL_NAMES: [&str; 32] = [
+    "games", "0ad", "archivers", "7-zip", "lang", "g++", "x11", "Xaw3d", "6tunnel", "3ddesktop",
+    "4ti2", "2048-cli", "9base", "libsigc++", "gtk+", "p5-Foo_Bar", "py-Z3", "R-Matrix",
+    "ISO8859-2", "a.b", "x_y", "Z", "0", "font-adobe-100dpi", "build", "test", "pkg", "DEPENDS",
+    "wip", "c++17", "+x", "_",
+];
+
+/// Spellings around `c/p` for the real-name sweep (accepted and rejected
+/// shapes; the verdict comes from the reference rule).
+pub fn real_name_forms(c: &str, p: &str) -> Vec<String> {
+    vec![
+        format!("{c}/{p}"),
+        format!("../../{c}/{p}"),
+        format!("{c}//{p}/"),
+        format!("../../{c}/./{p}"),
+        format!("..//../{c}/{p}//"),
+        format!("{c}/{p}/{c}"),
+        format!("../{c}/{p}"),
+        format!("/{c}/{p}"),
+        format!("./{c}/{p}"),
+        p.to_string(),
+        format!("../../{p}"),
+    ]
+}
+
 /// Seeded longer / odd paths.  Strings that contain NUL are only kept when
 /// the rule rejects them anyway (whether a NUL name is "ordinary" is not
 /// stated).
@@ -209,10 +417,10 @@ pub fn odd_path(r: &mut Rng) -> String {
                     _ => "/",
                 });
             }
-            if r.chance(1, 2) {
-                s.push_str(*r.pick(&SEGS));
-            } else {
-                s.push_str(*r.pick(&ODD_SEGS));
+            match r.below(5) {
+                0 | 1 => s.push_str(*r.pick(&SEGS)),
+                2 => s.push_str(*r.pick(&REAL_NAMES)),
+                _ => s.push_str(*r.pick(&ODD_SEGS)),
             }
         }
         if s.contains('\0') && crate::oracle::misc::pkgpath_rule(&s).is_some() {
@@ -256,7 +464,10 @@ pub const DEP_PATTERNS: [&str; 26] = [
     "py312-build>=0",
 ];
 
-pub const DEP_PATHS: [&str; 16] = [
+pub const DEP_PATHS: [&str; 19] = [
+    "games/0ad",
+    "../../lang/g++",
+    "x11/Xaw3d/",
     "cat/pkg",
     "../../cat/pkg",
     "cat//pkg/",
@@ -309,6 +520,37 @@ pub fn depend_forms(p: &str, q: &str) -> Vec<String> {
         v.push(format!("x:y:{p}:{q}"));
     }
     v
+}
+
+/// Plain words that are valid patterns on their own and mean something in
+/// pkgsrc's dependency vocabulary (dependency types, variable names).
+pub const DEP_WORDS: [&str; 12] = [
+    "full", "build", "bootstrap", "tool", "test", "depends", "run", "pkg", "DEPENDS", "BUILD",
+    "Full", "TOOL",
+];
+
+/// Field alphabet of the word sweep: the words, two valid patterns, valid
+/// paths in both spellings (one made of words), a word glued to a pattern
+/// with '=', and the empty field.
+pub const DEP_FIELDS: [&str; 19] = [
+    "full", "build", "bootstrap", "tool", "test", "depends", "run", "pkg", "DEPENDS", "BUILD",
+    "Full", "TOOL",
+    "cmake-[0-9]*", "foo>=1.0", "../../devel/cmake", "cat/pkg", "test/tool", "build=foo>=1", "",
+];
+
+/// The `code`-th string of `n` ':'-separated fields from `DEP_FIELDS`
+/// (`n - 1` colons).
+pub fn word_fields(n: usize, mut code: usize) -> String {
+    let k = DEP_FIELDS.len();
+    let mut s = String::new();
+    for i in 0..n {
+        if i > 0 {
+            s.push(':');
+        }
+        s.push_str(DEP_FIELDS[code % k]);
+        code /= k;
+    }
+    s
 }
 
 // ---------------------------------------------------------------------------
@@ -469,6 +711,55 @@ pub const NEAR_MISS: [&str; 30] = [
     "+REQUIRED-BY", "+MTREE", "+INSTALLED", "+DEINSTALL ", "+DE_INSTALL", "+Desc", "+DESC\0",
     "+BUILD_INFOS", "+PRESERV", "+SIZE_AL", "+INSTALL_INFO", "+DISPLAYS", "-DESC",
 ];
+
+/// Dictionary of plausible things in front of a metadata file name (archive
+/// member and path prefixes, blanks, byte order mark).
+pub const FILE_PREFIXES: [&str; 20] = [
+    "./", "/", "../", "dir/", " ", "\t", "\u{feff}", "+", ".//", "././", "foo-1.0/", "./foo-1.0/",
+    "/var/db/pkg/foo-1.0/", "\\", ".", "-", "\n", "\0", "\u{a0}", "pkg/",
+];
+
+/// Dictionary of plausible things after one (compression / backup suffixes,
+/// path and line terminators).
+pub const FILE_SUFFIXES: [&str; 20] = [
+    ".gz", "/", ".orig", "~", " ", "\n", "\r\n", "\r", "\t", "\0", ".bak", ".tmp", "/.", ".", ".tgz",
+    ".txt", ",v", "#", "\u{a0}", "+",
+];
+
+/// Every real file name with a dictionary prefix, a dictionary suffix, both,
+/// and whole-name respellings (lower / title case, no '+', '-' for '_', ...).
+/// None of the returned strings is one of the 14 names.
+pub fn decorated_names(f: &str) -> Vec<String> {
+    let mut v: Vec<String> = vec![];
+    {
+        for p in FILE_PREFIXES.iter() {
+            v.push(format!("{p}{f}"));
+            for s in FILE_SUFFIXES.iter() {
+                v.push(format!("{p}{f}{s}"));
+            }
+        }
+        for s in FILE_SUFFIXES.iter() {
+            v.push(format!("{f}{s}"));
+        }
+        let bare = &f[1..];
+        v.push(f.to_lowercase());
+        v.push(bare.to_string());
+        v.push(bare.to_lowercase());
+        v.push(format!("+{}{}", &bare[..1], bare[1..].to_lowercase()));
+        v.push(format!("-{bare}"));
+        v.push(format!("_{bare}"));
+        v.push(format!("%2B{bare}"));
+        v.push(format!("{f}{f}"));
+        if f.contains('_') {
+            v.push(f.replace('_', "-"));
+            v.push(f.replace('_', ""));
+            v.push(f.replace('_', " "));
+            v.push(f.replace('_', "__"));
+        }
+    }
+    v.retain(|s| !META_FILES.contains(&s.as_str()));
+    v
+}
 
 /// One-edit mutation of a real file name.
 pub fn mutate_name(r: &mut Rng) -> String {
